@@ -139,11 +139,16 @@ class Ctx:
         return n - 1
 
 
-def explore(run_path, assumptions=(), max_paths=20000):
+def explore(run_path, assumptions=(), max_paths=20000, max_seconds=None):
     """run_path(ctx) -> outcome; enumerates every feasible path by re-execution."""
     work = [[]]
     out = []
+    t0 = time.time()
+    if max_seconds is None:
+        max_seconds = float(os.environ.get("VERIF_EXPLORE_SECONDS", "240"))
     while work:
+        if time.time() - t0 > max_seconds:
+            raise RuntimeError("exploration budget exceeded (%d s, %d paths so far)" % (max_seconds, len(out)))
         dec = work.pop()
         ctx = Ctx(dec, assumptions)
         try:
